@@ -51,9 +51,24 @@ def run_impl(case, repair=False, frame=None):
     d = {'fields': {nm: {k: C.json_constraint(k, s) for k, s in cs.items()}
                     for nm, cs in case['cons'].items() if cs}}
     err = io.StringIO()
+    import copy as _copy
+    df_in, d_before = df.copy(), _copy.deepcopy(d)
     with contextlib.redirect_stderr(err), contextlib.redirect_stdout(err):
-        v = verify_df(df.copy(), d, epsilon=case['eps'], type_checking='strict' if case['strict'] else 'sloppy',
+        v = verify_df(df_in, d, epsilon=case['eps'], type_checking='strict' if case['strict'] else 'sloppy',
                       repair=repair, report=case['report'])
+    # (without repair, verification reads its arguments and leaves them as they were: the caller's frame and the
+    # caller's constraint dictionary are the caller's)
+    changed = []
+    if not repair:
+        try:
+            if list(df_in.columns) != list(df.columns) or [str(t) for t in df_in.dtypes] != [str(t) for t in df.dtypes] \
+                    or repr(df_in.to_dict('list')) != repr(df.to_dict('list')):
+                changed.append('the DataFrame')
+        except Exception:
+            pass
+    if repr(d) != repr(d_before):
+        changed.append('the constraint dictionary (now %r)' % (d,))
+    with contextlib.redirect_stderr(err), contextlib.redirect_stdout(err):
         fields = {}
         for nm, fr in v.fields.items():
             fields[nm] = ({k: (None if fr[k] is None else bool(fr[k])) for k in C.KINDS if k in fr},
@@ -61,7 +76,7 @@ def run_impl(case, repair=False, frame=None):
         frame = v.to_frame()
         text = str(v)
     return dict(passes=int(v.passes), failures=int(v.failures), fields=fields, frame=frame, text=text,
-                order=list(v.fields.keys()))
+                order=list(v.fields.keys()), changed=changed)
 
 
 def field_order(case):
@@ -90,6 +105,10 @@ def check_case(ctx, case, mo):
         ctx.fail(describe(case), 'verify_df raised %s: %s' % (type(e).__name__, str(e)[:300]),
                  finding=classify_exception(case, e))
         return
+    if r.get('changed'):
+        # observed only: changing an argument is not by itself a wrong verdict (C06 checks a second batch against the
+        # constraint set already used, which is where such a change would show)
+        ctx.bump('arguments_changed')
     order = field_order(case)
     # ---- documented meaning
     want_p = want_f = 0
